@@ -18,6 +18,7 @@ import (
 	"sync/atomic"
 	"time"
 
+	fws "github.com/fasthttp/websocket"
 	"github.com/hprose/hprose-golang/v3/rpc/core"
 	"github.com/hprose/hprose-golang/v3/rpc/http"
 	rfasthttp "github.com/hprose/hprose-golang/v3/rpc/http/fasthttp"
@@ -282,4 +283,221 @@ func WSFrame(index uint32, body []byte, errFlag bool) []byte {
 	}
 	binary.BigEndian.PutUint32(h, index)
 	return append(h, body...)
+}
+
+// ---- scripted raw servers ----
+
+// RawReq is one request frame received by a RawServer.
+type RawReq struct {
+	Index uint32
+	Body  []byte
+	Conn  *RawConn
+}
+
+// RawConn is one accepted connection (or one udp peer address) of a RawServer.
+type RawConn struct {
+	ID    int
+	write func(frame []byte) error // one frame / datagram / websocket message
+	raw   func(b []byte) error     // arbitrary bytes (stream transports)
+	close func()
+	mu    sync.Mutex
+}
+
+// RawServer accepts connections of one transport kind and hands every request frame to Reqs.
+type RawServer struct {
+	Kind  string
+	URL   string
+	Addr  string
+	Reqs  chan RawReq
+	Conns chan *RawConn // every accepted connection
+	stop  func()
+	frame func(index uint32, body []byte, errFlag bool) []byte
+}
+
+// Close stops the server and closes every connection.
+func (s *RawServer) Close() { s.stop() }
+
+// Reply sends a well-formed response frame on the request's connection.
+func (s *RawServer) Reply(c *RawConn, index uint32, body []byte, errFlag bool) error {
+	c.mu.Lock()
+	defer c.mu.Unlock()
+	return c.write(s.frame(index, body, errFlag))
+}
+
+// Frame builds a response frame of the server's transport.
+func (s *RawServer) Frame(index uint32, body []byte, errFlag bool) []byte {
+	return s.frame(index, body, errFlag)
+}
+
+// WriteFrame sends one prebuilt frame / datagram / websocket message.
+func (s *RawServer) WriteFrame(c *RawConn, frame []byte) error {
+	c.mu.Lock()
+	defer c.mu.Unlock()
+	return c.write(frame)
+}
+
+// WriteRaw writes arbitrary bytes to a stream connection (tcp/unix; for the others it equals WriteFrame).
+func (s *RawServer) WriteRaw(c *RawConn, b []byte) error {
+	c.mu.Lock()
+	defer c.mu.Unlock()
+	if c.raw != nil {
+		return c.raw(b)
+	}
+	return c.write(b)
+}
+
+// CloseConn closes one connection.
+func (s *RawServer) CloseConn(c *RawConn) {
+	if c.close != nil {
+		c.close()
+	}
+}
+
+// StartRaw starts a scripted server: kind in {tcp, unix, udp, ws}.
+func StartRaw(kind string) (*RawServer, error) {
+	Register()
+	s := &RawServer{Kind: kind, Reqs: make(chan RawReq, 1<<16), Conns: make(chan *RawConn, 1024)}
+	var connSeq int64
+	var mu sync.Mutex
+	var conns []*RawConn
+	track := func(c *RawConn) {
+		mu.Lock()
+		conns = append(conns, c)
+		mu.Unlock()
+		select {
+		case s.Conns <- c:
+		default:
+		}
+	}
+	closeAll := func() {
+		mu.Lock()
+		cs := conns
+		conns = nil
+		mu.Unlock()
+		for _, c := range cs {
+			if c.close != nil {
+				c.close()
+			}
+		}
+	}
+	switch kind {
+	case "tcp", "unix":
+		var ln net.Listener
+		var err error
+		if kind == "tcp" {
+			ln, err = net.Listen("tcp", "127.0.0.1:0")
+			if err == nil {
+				s.Addr = ln.Addr().String()
+				s.URL = "tcp://" + s.Addr
+			}
+		} else {
+			path := filepath.Join(Dir(), fmt.Sprintf("r%d-%d.sock", os.Getpid()%100000, atomic.AddInt64(&seq, 1)))
+			os.Remove(path)
+			ln, err = net.Listen("unix", path)
+			s.Addr = path
+			s.URL = "unix://" + path
+		}
+		if err != nil {
+			return nil, err
+		}
+		s.frame = func(index uint32, body []byte, errFlag bool) []byte { return TCPFrame(index, body, errFlag) }
+		go func() {
+			for {
+				conn, err := ln.Accept()
+				if err != nil {
+					return
+				}
+				rc := &RawConn{ID: int(atomic.AddInt64(&connSeq, 1))}
+				rc.write = func(f []byte) error { _, err := conn.Write(f); return err }
+				rc.raw = rc.write
+				rc.close = func() { conn.Close() }
+				track(rc)
+				go func() {
+					for {
+						index, body, _, err := ReadTCPFrame(conn)
+						if err != nil {
+							return
+						}
+						s.Reqs <- RawReq{Index: index, Body: body, Conn: rc}
+					}
+				}()
+			}
+		}()
+		s.stop = func() { ln.Close(); closeAll() }
+	case "udp":
+		pc, err := net.ListenUDP("udp", &net.UDPAddr{IP: net.IPv4(127, 0, 0, 1)})
+		if err != nil {
+			return nil, err
+		}
+		pc.SetReadBuffer(8 << 20)
+		pc.SetWriteBuffer(8 << 20)
+		s.Addr = pc.LocalAddr().String()
+		s.URL = "udp://" + s.Addr
+		s.frame = func(index uint32, body []byte, errFlag bool) []byte { return UDPFrame(uint16(index), body, errFlag) }
+		peers := map[string]*RawConn{}
+		go func() {
+			buf := make([]byte, 65536)
+			for {
+				n, addr, err := pc.ReadFromUDP(buf)
+				if err != nil {
+					return
+				}
+				index, _, body, _, err := ParseUDPFrame(buf[:n])
+				if err != nil {
+					continue
+				}
+				rc := peers[addr.String()]
+				if rc == nil {
+					a := *addr
+					rc = &RawConn{ID: int(atomic.AddInt64(&connSeq, 1))}
+					rc.write = func(f []byte) error { _, err := pc.WriteToUDP(f, &a); return err }
+					peers[addr.String()] = rc
+					track(rc)
+				}
+				s.Reqs <- RawReq{Index: uint32(index), Body: append([]byte(nil), body...), Conn: rc}
+			}
+		}()
+		s.stop = func() { pc.Close() }
+	case "ws":
+		ln, err := net.Listen("tcp", "127.0.0.1:0")
+		if err != nil {
+			return nil, err
+		}
+		s.Addr = ln.Addr().String()
+		s.URL = "ws://" + s.Addr + "/"
+		s.frame = func(index uint32, body []byte, errFlag bool) []byte { return WSFrame(index, body, errFlag) }
+		up := fws.Upgrader{Subprotocols: []string{"hprose"}}
+		server := &nethttp.Server{Handler: nethttp.HandlerFunc(func(w nethttp.ResponseWriter, req *nethttp.Request) {
+			conn, err := up.Upgrade(w, req, nil)
+			if err != nil {
+				return
+			}
+			rc := &RawConn{ID: int(atomic.AddInt64(&connSeq, 1))}
+			rc.write = func(f []byte) error { return conn.WriteMessage(fws.BinaryMessage, f) }
+			rc.raw = func(b []byte) error { _, err := conn.UnderlyingConn().Write(b); return err }
+			rc.close = func() { conn.Close() }
+			track(rc)
+			for {
+				_, data, err := conn.ReadMessage()
+				if err != nil {
+					return
+				}
+				if len(data) < 4 {
+					continue
+				}
+				s.Reqs <- RawReq{Index: binary.BigEndian.Uint32(data) & 0x7fffffff, Body: data[4:], Conn: rc}
+			}
+		})}
+		go server.Serve(ln)
+		s.stop = func() { server.Close(); closeAll() }
+	default:
+		return nil, errors.New("unknown raw kind " + kind)
+	}
+	return s, nil
+}
+
+// NewClient returns a client for the raw server.
+func (s *RawServer) NewClient() *core.Client {
+	Register()
+	return core.NewClient(s.URL)
 }
